@@ -286,6 +286,7 @@ func (rs *rowStore) processInserts(offsetsBySource common.OffsetsBySource, stop 
 	for {
 		select {
 		case insert := <-rs.inserts:
+			verifEvent("ms.recv", rs.t.Name, insert.offset, insert.key != nil)
 			verifEvent("ms.apply", rs.t.Name, insert.key != nil, insert.source)
 			rs.mx.Lock()
 			ms.offsetsBySource[insert.source] = insert.offset
@@ -691,7 +692,7 @@ func (rs *rowStore) writeOffsets(offsetsBySource common.OffsetsBySource) error {
 }
 
 func (rs *rowStore) removeOldFiles(stop <-chan interface{}) {
-	ticker := time.NewTicker(10 * time.Second)
+	ticker := time.NewTicker(verifScale("oldfiles", 10*time.Second))
 	defer ticker.Stop()
 
 	for {
@@ -731,6 +732,7 @@ func (rs *rowStore) removeOldFiles(stop <-chan interface{}) {
 					if err != nil {
 						rs.t.log.Errorf("Unable to delete old file store %v, still consuming disk space unnecessarily: %v", name, err)
 					}
+					verifEvent("oldfile.removed", rs.t.Name, err == nil)
 				}
 			}
 		}
